@@ -22,6 +22,8 @@ def main():
         sys.exit(explore.replay(space, a.replay))
     if hasattr(space, "main"):
         sys.exit(space.main(a.tier, seed))
+    if getattr(space, "MODE", "product") == "bfs":
+        sys.exit(explore.explore_bfs(space, a.tier, seed))
     sys.exit(explore.explore(space, a.tier, seed))
 
 
